@@ -304,13 +304,13 @@ func (vm *simVM) spawn(inc *incarnation, uuid string, now time.Time) *simProc {
 		if s.staleUnlock[uuid] {
 			sig = "fixStaleLocks-gave-up-while-process-alive"
 		}
-		w.ViolationSig("C14/two-live-crunch-run-processes", sig,
+		s.viol("C14", "two-live-crunch-run-processes", sig,
 			"container %s: crunch-run pid %d started on %s by dispatcher %d while pid %d on %s (started %s ago by dispatcher %d, running=%v, instance terminating=%v) is still alive; history: %s; api: %s",
 			uuid, p.pid, vm.in.id, inc.n, o.pid, o.vm.in.id, now.Sub(o.started).Round(time.Millisecond), o.byInc, o.running, o.vm.in.terminating(),
 			strings.Join(s.historyOf(uuid), " | "), strings.Join(s.api.ctrs[uuid].hist, ", "))
 	}
 	if ac := s.api.ctrs[uuid]; ac != nil && ac.unsat {
-		w.Violation("C16/unsatisfiable-container-started", "container %s cannot be satisfied by any configured type but crunch-run was started on %s", uuid, vm.in.id)
+		s.viol("C16", "unsatisfiable-container-started", "", "container %s cannot be satisfied by any configured type but crunch-run was started on %s", uuid, vm.in.id)
 	}
 	key := fmt.Sprintf("proc/%s/%d", vm.in.id, p.pid)
 	w.Spawn(key, func() { p.run(s, key) })
